@@ -247,13 +247,13 @@ def rand_history(rng, kind, n, with_cancel):
 def shards(tier, seed):
     out = []
     Lc, Le = EXH_LEN["cond"][tier], EXH_LEN["event"][tier]
-    nb = 6 if tier == "quick" else 12
+    nb = 10 if tier == "quick" else 16
     for b in range(nb):
         out.append({"kind": "exh", "cls": "cond", "full": False, "bucket": b, "nb": nb, "maxlen": Lc, "sync": False})
     for b in range(3):
         out.append({"kind": "exh", "cls": "cond", "full": True, "bucket": b, "nb": 3, "maxlen": Lc - 1, "sync": False})
     out.append({"kind": "exh", "cls": "cond", "full": False, "bucket": 0, "nb": 1, "maxlen": Lc - 1, "sync": True})
-    nb = 4 if tier == "quick" else 12
+    nb = 6 if tier == "quick" else 12
     for b in range(nb):
         out.append({"kind": "exh", "cls": "event", "full": False, "bucket": b, "nb": nb, "maxlen": Le, "sync": False})
     out.append({"kind": "exh", "cls": "event", "full": False, "bucket": 0, "nb": 1, "maxlen": Le - 1, "sync": True})
